@@ -124,7 +124,21 @@ def monitor(ops, outs):
         if cur is None:
             return k, "C21:unreadable-state", "op %d `%s`: unreadable state `%s`" % (k, ops[k], outs[k])
         if prev["adv"]:
-            return None
+            # advertising: only a new CONNECT_IND changes anything; the new connection knows nothing of the old one
+            if op[0] == "connect" and not cur["adv"]:
+                if cur["pend"] == 1:
+                    return (k, "C21:procedure-pending-across-connections",
+                            "op %d `%s`: the new connection starts with a procedure of the previous connection pending "
+                            "(instant %d): `%s`" % (k, ops[k], cur["inst"], outs[k]))
+                queue, pend, applied_at = [], None, None
+            prev = cur
+            continue
+        if op[0] == "disconnect":
+            if not cur["adv"]:
+                return k, "C21:local-disconnect-not-completed", "op %d: still connected after a local disconnect: `%s`" % (k, outs[k])
+            queue, pend, applied_at = [], None, None
+            prev = cur
+            continue
         expect_term, accepted_now = None, False
         if op[0] == "ev":
             queue += [p for p in op[1:] if bytes.fromhex(p)[1] != 0]
@@ -158,18 +172,24 @@ def monitor(ops, outs):
             reason, key, text = expect_term
             if not cur["adv"] or cur["reason"] != reason:
                 return k, key, "op %d `%s`: %s, expected the link to end with reason %d, observed `%s`" % (k, ops[k][:60], text, reason, outs[k])
-            return None
+            queue, pend, applied_at = [], None, None      # this connection is over
+            prev = cur
+            continue
         if pend is not None:
             kind, inst = pend["kind"], pend["inst"]
             exp = expected_after(dict(zip(("map", "int", "lat", "sto", "phy"), pend["start"])), kind, pend["par"])
             if cur["adv"]:
                 if op[0] == "to" and cur["reason"] == 8:
-                    return None                                       # supervision timeout
+                    queue, pend, applied_at = [], None, None          # supervision timeout
+                    prev = cur
+                    continue
                 if exp is None:
                     # refused parameters end the link, but only in the callback that plans the event at the instant
                     ahead = 1 if (op[0] == "to" or listen_always) else prev["lat"] + 1
                     if op[0] in ("ev", "to") and (inst - prev["E"]) % W <= ahead:
-                        return None
+                        queue, pend, applied_at = [], None, None
+                        prev = cur
+                        continue
                     return (k, "C21:conn-link-ended-before-instant",
                             "op %d `%s`: link ended (`%s`) before the instant %d of the pending Connection Update (event %d planned)"
                             % (k, ops[k][:40], outs[k], inst, prev["E"]))
@@ -203,6 +223,10 @@ def monitor(ops, outs):
                         "with the new parameters" % (k, applied_at, cur["E"]))
             if op[0] in ("ev", "to"):
                 applied_at = None
+            if params_of(cur) != params_of(prev):
+                return (k, "C21:parameters-changed-without-procedure",
+                        "op %d `%s`: (map,int,lat,sto,phy) changed from %s to %s although no procedure of this connection reached its instant"
+                        % (k, ops[k][:40], params_of(prev), params_of(cur)))
             if op[0] == "ev" and cur["rxw"] == 1 and not queue:
                 return k, "C21:data-not-processed", "op %d: no procedure pending, received data still unprocessed" % k
             if op[0] == "ev" and cur["pend"] == 1:
@@ -234,8 +258,10 @@ def monitor_plan(op, out):
 # ------------------------------------------------------------------------------------------------
 # generators
 # ------------------------------------------------------------------------------------------------
-def gen_proc(rng, inst, valid=True):
+def gen_proc(rng, inst, valid=True, no_conn=False):
     r = rng.random()
+    if no_conn:
+        r = 0.4 + 0.6 * r
     if r < 0.4:
         iv = rng.choice([6, 8, 24, 40, 100, 400, rng.randrange(6, 800)])
         lat = rng.choice([0, 0, 1, 2, 5, rng.randrange(0, 8)])
@@ -312,6 +338,48 @@ def gen_session(rng, length):
     return ops
 
 
+def gen_reconnect_session(rng):
+    """a procedure is (mostly) still pending when the connection is lost (supervision timeout or local
+    disconnect); the link layer is connected again and the new connection runs past the old instant"""
+    cfg = rng.choice([0, 1])
+    ops, first = [], True
+    for _round in range(rng.choice([1, 1, 2])):
+        lat = rng.choice([0, 0, 1, 2])
+        timeout = 6 * (lat + 1) + 1 + rng.randrange(4, 24)
+        e0 = rng.choice([rng.randrange(W), W - 3, 0, 32760])
+        if first:
+            ops.append("reset %d %d %d %d %d" % (cfg, lat, e0, rng.randrange(5, 17), timeout))
+        else:
+            ops.append("connect %d %d %d %d" % (lat, e0, rng.randrange(5, 17), timeout))
+        first = False
+        inst = None
+        if rng.random() < 0.85:
+            inst = (e0 + rng.randrange(40, 300)) % W       # a Connection Update must not reach its instant while disconnecting
+            tr = [gen_traffic(rng) for _ in range(rng.choice([0, 0, 1]))]
+            ops.append("ev " + " ".join(tr + [gen_proc(rng, inst, True)]))
+        for _ in range(rng.randrange(0, 4)):
+            ops.append(rng.choice(["ev", "ev " + PING, "ev " + ATT_MTU, "to", "cancel"]))
+        if rng.random() < 0.6:
+            ops += ["to"] * (timeout * 10000 // 30000 + 2)
+        else:
+            ops.append("disconnect")
+        # the new connection: its counter passes the old instant after a few events
+        lat2 = rng.choice([0, 0, 1])
+        c2 = (inst - rng.randrange(1, 9)) % W if inst is not None and rng.random() < 0.8 else rng.randrange(W)
+        ops.append("connect %d %d %d %d" % (lat2, c2, rng.randrange(5, 17), rng.choice([3200, 100, 40])))
+        if rng.random() < 0.4:
+            ops.append("ev " + gen_proc(rng, (c2 + rng.randrange(2, 9)) % W, rng.random() < 0.9, no_conn=True) + " " + PING)
+        else:
+            ops.append("ev " + rng.choice([PING, ATT_MTU, PING + " " + ATT_MTU]))
+        for _ in range(rng.randrange(6, 14)):
+            ops.append(rng.choice(["ev", "ev", "ev " + PING, "ev " + ATT_MTU, "ev " + UNKNOWN, "to", "cancel"]))
+        # end this connection, too, if another round follows
+        if rng.random() < 0.5:
+            ops.append("ev 03020213")
+        ops.append("disconnect")
+    return ops
+
+
 def gen_plan_session(rng, n):
     ops = []
     for _ in range(n):
@@ -349,7 +417,7 @@ def run_c21(ctx, replay_path=None):
     res.rule = ("link layer sessions = reset (peripheral latency configuration, latency 0..11, connEventCounter anywhere incl. "
                 "0xfffc..1 and 0x7fff/0x8000, hop) followed by connection events carrying LL_CONNECTION_UPDATE_IND / "
                 "LL_CHANNEL_MAP_IND / LL_PHY_UPDATE_IND with instants at distance 0,1,2,3,-1,-2,32766..32769 and random, valid "
-                "and invalid parameters, other traffic while pending, lost events and try_event_cancelation(); each session runs "
+                "and invalid parameters, other traffic while pending, lost events and try_event_cancelation(); reconnect sessions lose the connection (supervision timeout by lost events, local disconnect()) with a procedure still pending and connect again on the same link layer object, the new connection's counter running past the old instant; each session runs "
                 "on the real link_layer<> (test_radio, one event per op) and on the Lean model, state lines compared; an "
                 "independent monitor evaluates C21 on the implementation's lines; `plan` ops call plan_next_connection_event "
                 "of every peripheral_latency_configuration directly; non-trivial = a procedure became pending")
@@ -357,6 +425,8 @@ def run_c21(ctx, replay_path=None):
     n = 2500 if ctx.thorough else 260
     for _ in range(n):
         sessions.append(gen_session(ctx.rng, ctx.rng.randrange(4, 45)))
+    for _ in range(500 if ctx.thorough else 60):
+        sessions.append(gen_reconnect_session(ctx.rng))
     for _ in range(40 if ctx.thorough else 6):
         sessions.append(gen_plan_session(ctx.rng, 200))
     if ctx.thorough:
@@ -412,6 +482,9 @@ def run_c21(ctx, replay_path=None):
         res.count("sessions_with_pending_procedure", pend)
         res.count("sessions_terminated_instant_passed", term)
         res.count("sessions_applied", any(" pend=1" in a and " pend=0" in b for a, b in zip(outs, outs[1:])))
+        res.count("sessions_with_reconnect", any(o.startswith("connect") for o in ops))
+        res.count("sessions_connection_lost_while_pending",
+                  any(" pend=1" in a and b.startswith("adv") for a, b in zip(outs, outs[1:])))
         res.count("sessions_blocked_data_while_pending", any(" pend=1" in x and " rxw=1" in x for x in outs))
         if pend or term:
             res.distinct.add(hash(tuple(ops)))
@@ -427,6 +500,9 @@ PROPS = {
                   "BluetoeModel.Instants.data_processed_when_nothing_pending",
                   "BluetoeModel.Instants.latency_never_skips_instant",
                   "BluetoeModel.Instants.applied_event_not_rescheduled",
+                  "BluetoeModel.Instants.pending_procedure_dies_with_connection",
+                  "BluetoeModel.Instants.connection_end_drops_pending",
+                  "BluetoeModel.Instants.new_connection_starts_clean",
                   "BluetoeModel.Instants.terminated_only_when_instant_passed_partial"],
         witnesses=["BluetoeModel.Instants.terminated_only_when_instant_passed_witness"],
         run=run_c21,
